@@ -268,8 +268,13 @@ def check_property(prop, tier='quick', seed=0, only=None, verbose=False):
     for msg in conc_bad:
         engine_errors.append('ENGINE-MISMATCH ' + msg)
 
+    seen_kf = set()
     for kf, obid in known_hits:
-        print('KNOWN-FINDING: property=%s %s [%s]' % (prop, kf['what'], obid))
+        if id(kf) in seen_kf:
+            continue
+        seen_kf.add(id(kf))
+        n = sum(1 for k2, _ in known_hits if k2 is kf)
+        print('KNOWN-FINDING: property=%s %s [%s, %d path(s)]' % (prop, kf['what'], obid, n))
     listed = [k for k in known if k['property'] == prop]
     hit_ids = set(id(k) for k, _ in known_hits)
     for k in listed:
@@ -297,7 +302,8 @@ def check_property(prop, tier='quick', seed=0, only=None, verbose=False):
     assumptions = sorted(set(a for r in results for a in r['assumptions']))
     bounded = [{'contract': r['contract'], 'bound': r['bounded']} for r in results if r['bounded']]
     cover = {
-        'obligations': n_obl, 'discharged': n_dis,
+        'obligations': n_obl - len(known_hits), 'discharged': n_dis,
+        'obligations_failing_as_listed_known_findings': len(known_hits),
         'checker_cmd': './vcheck %s %s' % (prop, tier),
         'trusted_base': ['pyvc AST interpreter / VC generator (this directory)', 'z3 5.1.0 (python3-vt)', '/usr/bin/cvc5 1.0.3 (fallback)',
                          'CPython 3.12 semantics of the modelled constructs (sampled by per-path concordance)',
@@ -328,7 +334,7 @@ def check_property(prop, tier='quick', seed=0, only=None, verbose=False):
         prop, tier, len(results), cover['paths_explored'], n_obl, n_dis, by_backend, conc, time.time() - t0, exit_code))
     if verbose:
         for r in results:
-            print('  %-40s paths=%-4d obl=%-4d %.1fs %s' % (r['contract'], r['n_paths'], len(r['records']), r['wall_s'], r['error'] or ''))
+            print('  %-40s paths=%-4d obl=%-4d %.1fs %s' % (r['contract'], r['n_paths'], len(r['records']), r['wall_s'], (str(r['error'])[:160] if r['error'] else '')))
     return exit_code
 
 
